@@ -146,8 +146,7 @@ def configs(tier):
         rem_b += [rc(valid=False, remote=r, fl=(FL_S if s else FL_U)[(ti + 2 * ri) % 4], ts=t, hi=0)
                   for ri, r in enumerate((True, False)) for s in (True, False) for ti, t in enumerate(("", "p"))]
     cfgs.append(dict(name="samplers", samplers=sampler_family(tier), remotes=rem_b, his=list(range(8)), maxspans=2,
-                     newroot=["none", "local", "remote"] if th else ["local"], endmode="any" if th else "none",
-                     ctxuntil=2 if th else 1, reps="0,1,2,3" if th else "0,1,2"))
+                     newroot=["local"], endmode="none", ctxuntil=1, reps="0,1,2,3" if th else "0,1,2"))
     # F: trace flags beyond {00,01}: every byte of FlagDomain on remote and non-remote (hand-built / wrapper)
     # parents, SDK children of such parents as local parents, spans ended (simple + batch processor), for the
     # parent-based family (each position distinguishable) and the flag-copying base samplers
@@ -161,7 +160,7 @@ def configs(tier):
               ON, OFF, ratio(4), custom("RecordOnly", "inherit"), custom("RecordAndSample", "replace"), custom("Drop", "empty"),
               env("parentbased_always_off", "unset"), env("parentbased_traceidratio", "k4")]
     cfgs.append(dict(name="flags", samplers=samp_f, remotes=rem_f, his=[3, 4], maxspans=3 if th else 2,
-                     newroot=["local", "remote"] if th else ["local"], endmode="any", ctxuntil=1, reps="0,1,2,3"))
+                     newroot=["local"], endmode="any", ctxuntil=1, reps="0,1,2,3"))
     # P: several providers in one process, created before / after / between the spans of the others; children
     # of another provider's span; uniqueness over the union (rep 3: the SDK's default generators)
     rem_p = [rc(fl=0x03, ts="p", hi=3), rc(valid=False, fl=0x01, hi=0)]
